@@ -182,6 +182,117 @@ def find(pat, root, binds=None):
     return out
 
 
+def _size(n):
+    return sum(1 for x in ast.walk(n) if not isinstance(x, (ast.expr_context, ast.operator, ast.unaryop, ast.boolop, ast.cmpop)))
+
+
+_SKIP = ('ctx', 'type_comment', 'kind', 'lineno', 'col_offset', 'end_lineno', 'end_col_offset', 'type_params')
+
+
+def distance(p, n, b=None):
+    """Edit distance between a (canonical) pattern tree and a (canonical)
+    node: 0 iff the pattern matches.  Metavariables cost nothing; a differing
+    operator, name, attribute or constant costs 1; a subtree present on one
+    side only costs its size."""
+    b = {} if b is None else b
+    if isinstance(p, ast.Name) and _is_meta(p.id):
+        if p.id == '__':
+            return 0
+        if p.id in b:
+            return 0 if u(b[p.id]) == u(n) else 1
+        b[p.id] = n
+        return 0
+    if not isinstance(p, ast.AST) or not isinstance(n, ast.AST):
+        return 0 if p == n else 1
+    if type(p) is not type(n):
+        if isinstance(p, (ast.operator, ast.unaryop, ast.boolop, ast.cmpop, ast.expr_context)):
+            return 1
+        return _size(p) + _size(n)
+    d = 0
+    for f in p._fields:
+        if f in _SKIP:
+            continue
+        pv, nv = getattr(p, f, None), getattr(n, f, None)
+        if isinstance(pv, list) or isinstance(nv, list):
+            pv, nv = pv or [], nv or []
+            if f == 'keywords':
+                nk = {k.arg: k for k in nv}
+                pk = {k.arg: k for k in pv}
+                for a in pk:
+                    d += distance(pk[a].value, nk[a].value, b) if a in nk else _size(pk[a].value)
+                for a in nk:
+                    if a not in pk:
+                        d += _size(nk[a].value)
+                continue
+            for x, y in zip(pv, nv):
+                d += distance(x, y, b)
+            for extra in pv[len(nv):] + nv[len(pv):]:
+                d += _size(extra) if isinstance(extra, ast.AST) else 1
+        elif isinstance(pv, ast.AST) or isinstance(nv, ast.AST):
+            if pv is None or nv is None:
+                d += _size(pv if pv is not None else nv)
+            else:
+                d += distance(pv, nv, b)
+        elif pv != nv:
+            d += 1
+    return d
+
+
+_NEUTRAL = {'np', 'numpy', 'math', 'int', 'float', 'len', 'list', 'tuple', 'range', 'bool', 'abs', 'min', 'max', 'sum',
+            'True', 'False', 'None', 'slice', 'sorted', 'reversed', 'enumerate', 'zip', 'any', 'all', 'set'}
+
+
+def _closed_over(node, scope):
+    """The expression is a function of the names in `scope` only, built from
+    numpy/builtin operations the analysis knows to be pure."""
+    from .normal import is_pure
+    if not is_pure(node):
+        return False
+    bound = set()
+    for x in ast.walk(node):
+        if isinstance(x, ast.comprehension):
+            for t in ast.walk(x.target):
+                if isinstance(t, ast.Name):
+                    bound.add(t.id)
+    for x in ast.walk(node):
+        if isinstance(x, ast.Name) and x.id not in scope and x.id not in _NEUTRAL and x.id not in bound:
+            return False
+    return True
+
+
+def classify(node, patterns, binds=None, near=3, scope=None):
+    """Three-valued recognition of an expression against the accepted forms
+    of an obligation whose construct has already been located by its role:
+      ('match', bindings)      some accepted form matches;
+      ('near', dist, pattern)  not an accepted form, but positively a
+                               DIFFERENT computation in the same role -> a
+                               violation.  With `scope` (a set of names): the
+                               expression is a pure function of exactly the
+                               operands the accepted forms use, i.e. another
+                               function of the same inputs.  Without scope: a
+                               small edit (<= near positions) of an accepted
+                               form.
+      ('far', dist, pattern)   the expression involves operands or helpers
+                               the rule cannot see through (or is an
+                               unfamiliar shape) -> the analysis cannot
+                               decide (incomplete), never a violation."""
+    n = canon(node)
+    best = None
+    for pat in patterns:
+        p = _parse(pat) if isinstance(pat, str) else pat
+        b = dict(binds or {})
+        d = distance(p, n, b)
+        if d == 0:
+            return ('match', b)
+        if best is None or d < best[0]:
+            best = (d, pat)
+    if best is None:
+        return ('far', 10 ** 6, None)
+    if scope is not None:
+        return ('near' if _closed_over(n, set(scope)) else 'far', best[0], best[1])
+    return ('near' if best[0] <= near else 'far', best[0], best[1])
+
+
 def C(text):
     """Canonical text of a literal source pattern (rules compare against the
     canonicalised trees the front end produces)."""
